@@ -446,7 +446,7 @@ func runC14(cfg *runCfg) error {
 	}
 
 	// ---- family rand: long / UTF-8 / mutated pairs ----
-	nRand := 2000
+	nRand := 1400
 	if cfg.tier != "quick" {
 		nRand = 20000
 	}
@@ -490,7 +490,7 @@ func runC14(cfg *runCfg) error {
 	m.Distribution["rand_topics_with_inner_dollar_level_matched"] = rDollarMatch
 
 	// ---- family mux: several registrations, order of invocation ----
-	nMux := 400
+	nMux := 300
 	if cfg.tier != "quick" {
 		nMux = 4000
 	}
@@ -532,7 +532,7 @@ func runC14(cfg *runCfg) error {
 	m.Distribution["mux_cases_with_2plus_handlers_called"] = multi
 
 	// ---- family ops: random histories of Handle / Serve on 1-3 ServeMux values ----
-	nOps := 400
+	nOps := 300
 	if cfg.tier != "quick" {
 		nOps = 4000
 	}
@@ -610,14 +610,23 @@ func runC14(cfg *runCfg) error {
 	m.Distribution["opsx_max_length"] = xl
 	m.Distribution["opsx_histories_with_late_handler_invoked"] = xLate
 
-	m.DistinctNontrivial = accepted + len(seen) + len(lateSeen) + xLate
+	// ---- round 4: deep topics/filters, re-entrant Serve, overlapping Serve calls (c14b.go) ----
+	deepDistinct := c14DeepFamily(cfg, r, cf, m)
+	nestDistinct := c14NestFamilies(cfg, r, cf, m)
+	concDistinct := c14ConcFamily(cfg, r, cf, m)
+
+	m.DistinctNontrivial = accepted + len(seen) + len(lateSeen) + xLate + deepDistinct + nestDistinct + concDistinct
 	m.Rule = fmt.Sprintf("exhaustive (sig): every filter over {/,+,#,a,b} up to length %d against every topic over {/,a,b} up to length %d; "+
 		"exhaustive (sigd): every filter over {/,+,#,a,$} up to length %d against every topic over {/,a,$} up to length %d not starting with '$'; all through ServeMux.Handle/Serve; "+
 		"random: level-structured filters (wildcards, UTF-8, '$' levels, mutated bytes) with topics derived from them ('$'-prefixed levels at non-first positions); "+
 		"mux: 1-6 registrations then one Serve; ops: random histories of 3-20 Handle/Serve operations on 1-3 ServeMux values over small topic/filter pools "+
 		"(repeated topics, Handle after Serve, rejected filters in between); opsx: every history up to length %d over 7 operations on 2 ServeMux values. "+
+		"deep: topics of 1-40 levels (emphasis on 15-18, 31-33, powers of two) with 4-7 filters derived from them (literal, one level replaced by '+', prefix + '#', the topic's tail as a short filter, near misses, invalid) on one ServeMux; "+
+		"nest/nestx: random and enumerated histories whose handlers dispatch another message through the same or another ServeMux before returning (nesting depth <= 2); "+
+		"conc: 2-4 goroutines serving different topics on one ServeMux, every call parked inside its handlers until all calls overlap. "+
 		"distinct_nontrivial = accepted enumerated filters (each with a full topic sweep) + distinct random (filter,topic) pairs "+
-		"+ distinct random histories and enumerated histories in which a Serve invoked a handler registered after an earlier Serve of the same topic", fl, tl, fl, tl, xl)
+		"+ distinct random histories and enumerated histories in which a Serve invoked a handler registered after an earlier Serve of the same topic "+
+		"+ distinct deep cases + re-entrant histories in which the outer call invokes a handler after a nested dispatch + overlapping cases with >= 2 calls inside handlers at once", fl, tl, fl, tl, xl)
 	m.Exhaustive = true
 	if err := cf.write(cfg.outDir); err != nil {
 		return err
